@@ -438,7 +438,8 @@ def tw_udp_protocol(rec, context, framer, cfg):
 
 
 def _run_tw_udp(rec, context, framer, cfg, reads, direct):
-    """direct=False: through datagramReceived (dead on the pinned tree: TypeError on the first log line).
+    """direct=False: through datagramReceived (the default since /repo b36db33 revived that entry point; before, it
+    raised TypeError on its first log line and every suite used direct=True).
     direct=True: every frame of the datagram is decoded by the harness and handed to the REAL
     `_execute(request, addr)`, so that `_execute`/`_send` are still tied."""
     p = tw_udp_protocol(rec, context, framer, cfg)
@@ -587,7 +588,7 @@ def edit_histories(fe, framer):
                 out.append({"fe": fe, "framer": framer, "cfg": {"single": False, "bcast": bcast, "ignore": ignore},
                             "hosted": [[1, "ok"], [2, "ok"], [3, "ok"]], "reqs": [dict(q) for q in reqs],
                             "groups": [[i] for i in range(len(reqs))], "mode": "edit:" + name,
-                            "direct": fe == "tw_udp", "edits": [dict(e) for e in edits]})
+                            "direct": False, "edits": [dict(e) for e in edits]})
     return out
 
 
@@ -680,7 +681,7 @@ def gen_scenario(r, fe, framer, multi_bias=0.6, max_reqs=6):
         groups = [[i] for i in range(n)]
         mode = "one-per-read"
     return {"fe": fe, "framer": framer, "cfg": cfg, "hosted": [list(h) for h in hosted], "reqs": reqs,
-            "groups": groups, "mode": mode, "direct": fe == "tw_udp"}
+            "groups": groups, "mode": mode, "direct": False}
 
 
 def reads_of(sc):
